@@ -9,10 +9,10 @@ def repo_commits():
 
 A_NOTE = ("Also checked end to end (world E, except C06/C09): the same oracle on the outputs the real loop wrote per delivered key event when evdev bytes -> real reader -> RealDriver -> real loop -> real writer -> uinput bytes runs on pipes. Trusted: the fold definitions of 'held on the physical/virtual keyboard', the harness PRNG/scheduler, and - where the oracle uses the words "
           "'fires'/'in effect' - the ~60-line reference control model R (sim/src/refmodel.rs). Real code: Mapper::for_layout/step/release_all, "
-          "the JSON parser and the converter (every layout is loaded through them). Sampled, not enumerated.")
+          "the JSON parser and the converter (every layout is loaded through them). Sampled, not enumerated. One generated layout in four is handed over as a text with repeat-only entries, one random-layout case in ten as a text in the alias shorthand; the oracles judge against the plain list of mappings the text means.")
 B_NOTE = ("Trusted: the simulated driver (edge-triggered readiness, discrete-event clock) and RefLoop (sim/src/loopsim.rs), which replays the recorded "
           "trace against its own real Mapper. Real code: do_remapping_loop_one_device and the mapper inside it, reached through hook H1. "
-          "In hybrid campaigns also the shipped RealDriver (hook H3) with the real readers/writer on pipes. Not covered: RealDriver::poll with a non-zero timeout (real waiting), ENODEV->End, uinput ioctls, the multi-device thread spawners.")
+          "In hybrid campaigns also the shipped RealDriver (hook H3) with the real readers/writer on pipes. In syspoll runs RealDriver::poll itself runs with the loop's own time-out (hook H5) on top of a simulated wait system call; unplug is ENODEV at the read(2) seam. Not covered: uinput ioctls (DevInputWriter::open), the multi-device thread spawners, a driver that reads the clock itself.")
 
 CHECKS = {
  "C01": ("exploration", "seeded simulation of key actors + faulty delivery channel against the real mapper; invariant after every event", "3.A, 4 C01",
